@@ -51,6 +51,8 @@ def header_case(draw):
             "preset": [draw(sizes_names), draw(sizes_other), draw(sizes_other)],
             "params": {"generalized": draw(st.booleans()), "rdf_star": draw(st.booleans()),
                        "namespace_declarations": draw(st.booleans()),
+                       # an explicitly passed version (e.g. taken over from a parsed stream) must not override the rule
+                       "version": draw(st.sampled_from([None, None, 1, 2, 7])),
                        "stream_name": draw(st.one_of(st.just(""), st.text(max_size=30), st.text(min_size=100, max_size=140)))},
             "with_statement": draw(st.booleans())}
 
